@@ -9,20 +9,12 @@ def run(R, tier, seed):
     R.trusted += ["rustc nightly MIR dump of the copia binary crate", "mirsmt encoder + std models (validated in concrete mode vs native)",
                   "z3 5.1 (deciding), cvc5 / z3 4.8.12 (re-deciding)"]
     R.assumptions += ["decided at the level of the plan the run executes: `is never transferred / deleted` means `is not in plan.transfer / plan.delete`",
-                      "is_excluded's own dispatch (slash-free pattern per component vs whole path, trailing '/' trim) is read, not decided",
+                      "is_excluded's dispatch (slash-free pattern per component vs whole path, trailing '/' trim, empty pattern ignored) is decided from MIR for relative "
+                      "paths of '/'-separated plain names (no '.'/'..' components): every path the definition excludes is reported excluded",
                       "the --dry-run clause (no file, mtime or recorded state changes; printed == performed) is a file-system observation and is NOT covered",
                       "strings are sequences of one-byte chars over the alphabet " + repr(planlib.ALPHABET)]
-    ctx = planlib.Ctx()
-    R.extra["mir_dump"] = {"file": ctx.mir_path, "seconds": round(ctx.dump_s, 2)}
-    prover = planlib.Prover(R, tier)
-    steps = [
-        ("validate", lambda: planlib.validate_glob(ctx, R, seed, 30 if tier == "quick" else 150)),
-        ("glob_match", lambda: planlib.glob_obligation(ctx, prover, "C15", *((4, 5) if tier == "quick" else (6, 7)), direction="protect")),
-        ("validate-build_plan", lambda: planlib.validate_build_plan(ctx, R, seed, 10 if tier == "quick" else 60)),
-        ("build_plan", lambda: planlib.build_plan_obligation(ctx, prover, "C15", 3 if tier == "quick" else 5, seed)),
-    ]
-    for name, f in steps:
-        try:
-            f()
-        except (Unsupported, Inconclusive) as e:
-            R.add("C15/%s/encoding" % name, "inconclusive", detail=str(e)[:400])
+    from . import planjobs
+    steps = ["validate-glob", "glob_match", "build_plan", "is_excluded"]
+    if tier != "quick":
+        steps += ["is_excluded-2", "is_excluded-long"]
+    planjobs.run(R, "C15", tier, seed, steps)
